@@ -116,9 +116,9 @@ Definition elab_ref (m : model) (lm : lmethod) (rb : ref_body) : rmeth :=
              rm_fields := froute; rm_args := if ok_recv then aroute else map (fun _ => unbound) aroute;
              rm_callee := index_of (call_name (ab_call ab)) (method_names m);
              rm_reply_own := own;
-             rm_loud_reply := match ab_reply ab with Some (_, o) => loud o | None => true end |}
+             rm_loud_reply := match ab_reply ab with Some (_, o) => loud o | None => true end; rm_msg := true |}
       | _ => {| rm_reply := has_tx && waits; rm_send := STry; rm_loud_send := false; rm_loud_wait := false;
-                rm_fields := froute; rm_args := []; rm_callee := unbound; rm_reply_own := false; rm_loud_reply := false |}
+                rm_fields := froute; rm_args := []; rm_callee := unbound; rm_reply_own := false; rm_loud_reply := false; rm_msg := true |}
       end
   | MClosure _ v cparam _ ab _ =>
       (* the closure captures the live scope; its parameter plays the role of the direct parameter *)
@@ -141,16 +141,18 @@ Definition elab_ref (m : model) (lm : lmethod) (rb : ref_body) : rmeth :=
          rm_fields := seq 0 (List.length params); rm_args := if ok_arm && ok_recv then aroute else map (fun _ => unbound) aroute;
          rm_callee := index_of (call_name (ab_call ab)) (method_names m);
          rm_reply_own := own;
-         rm_loud_reply := match ab_reply ab with Some (_, o) => loud o | None => true end |}
+         rm_loud_reply := match ab_reply ab with Some (_, o) => loud o | None => true end; rm_msg := true |}
   | MUnknown _ => {| rm_reply := false; rm_send := STry; rm_loud_send := false; rm_loud_wait := false;
-                     rm_fields := []; rm_args := []; rm_callee := unbound; rm_reply_own := false; rm_loud_reply := false |}
+                     rm_fields := []; rm_args := []; rm_callee := unbound; rm_reply_own := false; rm_loud_reply := false; rm_msg := true |}
   end.
 
 (* methods that do not message the actor get an inert entry so that indices stay aligned with m_methods *)
-Definition inert : rmeth := {| rm_reply := false; rm_send := SBlocking; rm_loud_send := true; rm_loud_wait := true;
-                               rm_fields := []; rm_args := []; rm_callee := unbound; rm_reply_own := false; rm_loud_reply := true |}.
-Definition elab_method (m : model) (lm : lmethod) : rmeth :=
-  match lm_body lm with BRef rb => elab_ref m lm rb | _ => inert end.
+Definition inert (k : nat) : rmeth := {| rm_reply := false; rm_send := SBlocking; rm_loud_send := true; rm_loud_wait := true;
+                               rm_fields := []; rm_args := []; rm_callee := k; rm_reply_own := false; rm_loud_reply := true; rm_msg := false |}.
+Definition elab_method (m : model) (k : nat) (lm : lmethod) : rmeth :=
+  match lm_body lm with BRef rb => elab_ref m lm rb | _ => inert k end.
+Fixpoint mapi {X Y} (f : nat -> X -> Y) (k : nat) (l : list X) : list Y :=
+  match l with [] => [] | x :: t => f k x :: mapi f (S k) t end.
 
 Definition ctor_of (m : model) : option ctor_body :=
   match filter (fun lm => match lm_body lm with BCtor _ => true | _ => false end) (m_methods m) with
@@ -175,7 +177,7 @@ Definition stop_first (m : model) : bool :=
 
 Definition elab (m : model) : rmodel :=
   {| r_cap := cap_of m;
-     r_meths := map (elab_method m) (m_methods m);
+     r_meths := mapi (elab_method m) 0 (m_methods m);
      r_clonable := mem "derive (Clone)" (m_live_attrs m);
      r_guard := forallb guard_ok (slf_bodies m);
      r_stop_first := stop_first m |}.
